@@ -375,6 +375,43 @@ pub fn c18(a: &Analysis, v: &mut Verdict) {
                     ),
                 );
             }
+            // "each cycle uses its own clock anchor": the begin time is the span's monotonic start
+            // translated with an anchor (wall clock and monotonic clock read one after the other)
+            // taken inside the collector cycle that delivered the record
+            {
+                let b = &a.hist.batches[a.delivered[di].batch];
+                if let Some(cy) = a.cycles.iter().find(|c| c.tid == b.tid && c.begin_step <= b.step && b.step <= c.end_step) {
+                    let mut anchors: Vec<(u64, u64)> = vec![];
+                    let mut pending: Option<u64> = None;
+                    for e in log.iter() {
+                        if e.tid as usize != cy.tid || e.step < cy.begin_step || e.step > b.step {
+                            continue;
+                        }
+                        if e.kind == sim::K_UNIX {
+                            pending = Some(e.a);
+                        } else if e.kind == sim::K_CLOCK {
+                            if let Some(u) = pending.take() {
+                                anchors.push((u, e.a));
+                            }
+                        }
+                    }
+                    let fits = anchors.iter().any(|(u, mo)| br.iter().any(|s| (*u as i128 + *s as i128 - *mo as i128) == r.begin as i128));
+                    v.probe("begin_times_checked_against_cycle_anchor", 1);
+                    if !fits {
+                        v.add(
+                            "C18",
+                            "C18.begin",
+                            "not-this-cycles-anchor".into(),
+                            format!(
+                                "record n{}: begin time {} is not its monotonic start translated with a clock anchor taken in the collector cycle that delivered it ({} anchors in that cycle)",
+                                er.node,
+                                r.begin,
+                                anchors.len()
+                            ),
+                        );
+                    }
+                }
+            }
             if r.begin < win_lo || r.begin > win_hi {
                 v.add(
                     "C18",
